@@ -254,11 +254,13 @@ class kLeastAbsErrorsCycles(walkmodel.AbstractWalkModelDiGraph):
     def _encode_leastabserrors_decomposition(self):
 
         # pi vars 
+        # A walk can traverse an edge several times, so the product (edge multiplicity) * (walk weight) can exceed w_max
+        pi_max = self.w_max * max(self.edge_upper_bounds.values())
         self.pi_vars = self.solver.add_variables(
             self.edge_indexes,
             name_prefix="pi",
             lb=0,
-            ub=self.w_max,
+            ub=pi_max,
             var_type="integer" if self.weight_type == int else "continuous",
         )
         self.path_weights_vars = self.solver.add_variables(
@@ -275,7 +277,7 @@ class kLeastAbsErrorsCycles(walkmodel.AbstractWalkModelDiGraph):
             self.edge_indexes_basic,
             name_prefix="ee",
             lb=0,
-            ub=self.w_max,
+            ub=pi_max,
             var_type="integer" if self.weight_type == int else "continuous",
         )
 
